@@ -23,8 +23,7 @@ EXTENDS Integers, Sequences, FiniteSets, TLC, Json
 CONSTANTS MaxRows, MaxDepth,
           Hi, NDom,      \* rows are pairs over {0, Hi}; NDom = 2 or 3 distinct rows
           UVals,         \* unhashable values ({} or {Hi}): hashing a tuple containing one raises TypeError
-          Fam,           \* initial family
-          BufMax, Growth,\* BufferedRow strategy: max_row_buffer, growth_factor
+          Fams,          \* initial implementation configurations: "iter" "chunk" "default" "full" "buffered<max_row_buffer>_<growth_factor>"
           Ops, ViewOps,  \* scenario: action names enabled on the base Result / on the filtered view
           Sizes, PSizes, \* fetchmany / partitions sizes; SzNone stands for "no size given"
           DevViewUniqueStale, DevFullFetchmany0
@@ -36,12 +35,15 @@ Min(a, b) == IF a < b THEN a ELSE b
 IsIter(f) == f \in {"iter", "chunk", "merged"}
 NoView == [kind |-> "none", uniq |-> FALSE, ustr |-> FALSE, own |-> FALSE, seen |-> {}, proj |-> <<1, 2>>]
 NoMemo == [one |-> "unset", many |-> "unset", it |-> "unset"]
-InitSt(rows) == [rows |-> rows, orig |-> rows, pos |-> 0, state |-> "attached", fam |-> Fam,
-                 buf |-> IF Fam = "buffered" THEN Min(1, Len(rows)) ELSE 0,
-                 bufsize |-> IF Fam = "buffered" THEN (IF Growth > 0 THEN Min(BufMax, Growth) ELSE BufMax) ELSE 0,
-                 maxbuf |-> IF Fam = "buffered" THEN BufMax ELSE 0, growth |-> IF Fam = "buffered" THEN Growth ELSE 0,
-                 yp |-> 0, b |-> [uniq |-> FALSE, ustr |-> FALSE, seen |-> {}, proj |-> <<1, 2>>],
-                 v |-> NoView, vm |-> NoMemo, frozen |-> FALSE, broken |-> FALSE]
+FamOf(c) == IF c \in {"iter", "chunk", "default", "full"} THEN c ELSE "buffered"
+BufMaxOf(c) == CASE c = "buffered1_5" -> 1 [] c = "buffered2_5" -> 2 [] c \in {"buffered3_5", "buffered3_2"} -> 3 [] OTHER -> 0
+GrowthOf(c) == CASE c = "buffered3_2" -> 2 [] c \in {"buffered1_5", "buffered2_5", "buffered3_5"} -> 5 [] OTHER -> 0
+InitSt(rows, c) == [cfg |-> c, rows |-> rows, orig |-> rows, pos |-> 0, state |-> "attached", fam |-> FamOf(c),
+                    buf |-> IF FamOf(c) = "buffered" THEN Min(1, Len(rows)) ELSE 0,          \* the strategy pre-fetches one row
+                    bufsize |-> IF GrowthOf(c) > 0 THEN Min(BufMaxOf(c), GrowthOf(c)) ELSE BufMaxOf(c),
+                    maxbuf |-> BufMaxOf(c), growth |-> GrowthOf(c),
+                    yp |-> 0, b |-> [uniq |-> FALSE, ustr |-> FALSE, seen |-> {}, proj |-> <<1, 2>>],
+                    v |-> NoView, vm |-> NoMemo, frozen |-> FALSE, broken |-> FALSE]
 Remaining(s) == Len(s.rows) - s.pos
 \* ---------------------------------------------------------------- return values
 RV(k, rows, err) == [k |-> k, rows |-> rows, err |-> err]
@@ -245,7 +247,7 @@ Next ==
   \/ On("Freeze", "b") /\ ~st.frozen /\ Step("Freeze", "b", 0, DoFreeze(st))
   \/ On("Merge", "b") /\ st.fam # "merged" /\ st.state # "hard" /\ Step("Merge", "b", 0, DoMerge(st))
 RowSeqs == UNION {[1..k -> RowDom] : k \in 0..MaxRows}
-Init == st \in {InitSt(r) : r \in RowSeqs} /\ last = [a |-> "init", h |-> "b", arg |-> 0, ret |-> ROk, idx |-> <<>>]
+Init == st \in {InitSt(r, c) : r \in RowSeqs, c \in Fams} /\ last = [a |-> "init", h |-> "b", arg |-> 0, ret |-> ROk, idx |-> <<>>]
 Spec == Init /\ [][Next]_vars
 View == st
 Depth == TLCGet("level") <= MaxDepth + 1        \* MaxDepth = calls per walk
